@@ -460,8 +460,12 @@ func describeBlock(b *LiveBlock) string {
 }
 
 func (w *World) deviceFaultsArmed() bool {
-	d := w.St.Media.Data
-	return d != nil && (len(d.FailWrite) > 0 || len(d.FailRead) > 0)
+	for _, d := range []*sim.Device{w.St.Media.Data, w.St.Media.Index} {
+		if d != nil && (len(d.FailWrite) > 0 || len(d.FailRead) > 0) {
+			return true
+		}
+	}
+	return false
 }
 
 // ReadResult classifies one completed read.
